@@ -1,11 +1,427 @@
 //! C10 own cases: panic injection into user closures / iterators of mutating calls, followed by
 //! continued use of the surviving object (see coq/theories/Run/RunC10.v). Every other C10
 //! workload is another property's case replayed with the hooks on (tools/props/c10.py).
+//! (10 7 shape data ops): a history of safe Tensor mutators (valid and invalid arguments, panicking
+//! closures, writes through adaptor stacks built over `&mut tensor`), the tensor dumped through the
+//! checked getter and through the (unchecked, hooked) iterators after EVERY step.
 use crate::guarded;
 use crate::sx::*;
 use easy_ml::matrices::Matrix;
+use easy_ml::tensors::indexing::{TensorAccess, TensorTranspose};
+use easy_ml::tensors::views::{TensorMask, TensorMut, TensorRange, TensorRef, TensorRename, TensorReverse};
 use easy_ml::tensors::Tensor;
 use std::cell::Cell;
+
+// (10 8 ..): Matrix mutation histories — the C11 driver itself (self-contained file), compiled
+// into this module so that C10 runs them with the hooks on whichever features are enabled
+#[path = "c11.rs"]
+mod matrix_histories;
+
+// ------------------------------------------------------------------ stack / chain walks (10 9 term)
+
+use easy_ml::tensors::views::{TensorChain, TensorStack, TensorView};
+
+struct LeafSpec {
+    id: i64,
+    shape: Vec<(usize, usize)>,
+}
+
+fn parse_leaves(s: &Sx) -> Option<Vec<LeafSpec>> {
+    s.list()?
+        .iter()
+        .map(|t| {
+            let v = t.list()?;
+            if v.len() != 3 || v[0].i64()? != 0 {
+                return None;
+            }
+            Some(LeafSpec { id: v[1].i64()?, shape: v[2].pairs_usize()? })
+        })
+        .collect()
+}
+
+fn mk_leaf<const D: usize>(spec: &LeafSpec) -> Option<Tensor<i64, D>> {
+    if spec.shape.len() != D {
+        return None;
+    }
+    let shape: [(&'static str, usize); D] = shape_arr(&spec.shape);
+    let n: usize = spec.shape.iter().map(|d| d.1).product();
+    let id = spec.id;
+    guarded(move || Tensor::from(shape, (0..n as i64).map(|k| id * 1000 + k).collect()))
+}
+
+/// The constructor under catch_unwind; when it returns, EVERY index of view_shape() is read through
+/// the checked getter, the unchecked getter and the iterator (unchecked accesses, hooks on).
+fn walk<S: TensorMut<i64, D>, const D: usize>(mk: impl FnOnce() -> S) -> Sx {
+    let Some(mut view) = guarded(mk) else { return panicked() };
+    let shape = view.view_shape();
+    let lens: Vec<usize> = shape.iter().map(|d| d.1).collect();
+    if lens.iter().try_fold(1usize, |a, &b| a.checked_mul(b)).map_or(true, |n| n > (1 << 16)) {
+        return inconsistent(1050);
+    }
+    let indexes = all_indexes(&lens);
+    let Some(checked) = guarded(|| indexes.iter().map(|i| view.get_reference(idx_arr::<D>(i)).copied()).collect::<Vec<_>>()) else {
+        return inconsistent(1051);
+    };
+    // the iterator and the unchecked getter may only be asked for indexes inside view_shape():
+    // exactly what a safe caller (TensorView::iter) does
+    let Some(iterated) = guarded(|| TensorView::from(&view).iter().collect::<Vec<i64>>()) else { return inconsistent(1052) };
+    let Some(unchecked) = guarded(|| indexes.iter().map(|i| unsafe { *view.get_reference_unchecked(idx_arr::<D>(i)) }).collect::<Vec<i64>>()) else {
+        return inconsistent(1053);
+    };
+    // the same through the mutable accessors: checked, unchecked and the mutable-reference iterator
+    let Some(checked_mut) = guarded(|| indexes.iter().map(|i| view.get_reference_mut(idx_arr::<D>(i)).map(|r| *r)).collect::<Vec<_>>()) else {
+        return inconsistent(1055);
+    };
+    let Some(unchecked_mut) = guarded(|| indexes.iter().map(|i| unsafe { *view.get_reference_unchecked_mut(idx_arr::<D>(i)) }).collect::<Vec<i64>>()) else {
+        return inconsistent(1056);
+    };
+    let Some(iterated_mut) = guarded(|| TensorView::from(&mut view).iter_reference_mut().map(|r| *r).collect::<Vec<i64>>()) else {
+        return inconsistent(1057);
+    };
+    if checked_mut != checked {
+        return inconsistent(1058);
+    }
+    if checked.iter().all(|x| x.is_some()) {
+        let c: Vec<i64> = checked.iter().map(|x| x.unwrap()).collect();
+        if c != iterated || c != unchecked || c != unchecked_mut || c != iterated_mut {
+            return inconsistent(1054);
+        }
+    }
+    ok(l(vec![shape_sx(&shape), l(checked.into_iter().map(|x| opt(x.map(z))).collect())]))
+}
+
+fn chain_walk<const D: usize>(leaves: &[LeafSpec], along: usize, kind: i64) -> Sx {
+    let Some(ts) = leaves.iter().map(mk_leaf::<D>).collect::<Option<Vec<Tensor<i64, D>>>>() else { return bad_case() };
+    let along = dim(along);
+    let mut it = ts.into_iter();
+    let mut nx = || it.next().unwrap();
+    match (kind, leaves.len()) {
+        (0, 1) => { let s = [nx()]; walk::<_, D>(move || TensorChain::<i64, [_; 1], D>::from(s, along)) }
+        (0, 2) => { let s = [nx(), nx()]; walk::<_, D>(move || TensorChain::<i64, [_; 2], D>::from(s, along)) }
+        (0, 3) => { let s = [nx(), nx(), nx()]; walk::<_, D>(move || TensorChain::<i64, [_; 3], D>::from(s, along)) }
+        (0, 4) => { let s = [nx(), nx(), nx(), nx()]; walk::<_, D>(move || TensorChain::<i64, [_; 4], D>::from(s, along)) }
+        (0, 5) => { let s = [nx(), nx(), nx(), nx(), nx()]; walk::<_, D>(move || TensorChain::<i64, [_; 5], D>::from(s, along)) }
+        (1, 2) => { let s = (nx(), nx()); walk::<_, D>(move || TensorChain::<i64, (_, _), D>::from(s, along)) }
+        (1, 3) => { let s = (nx(), nx(), nx()); walk::<_, D>(move || TensorChain::<i64, (_, _, _), D>::from(s, along)) }
+        (1, 4) => { let s = (nx(), nx(), nx(), nx()); walk::<_, D>(move || TensorChain::<i64, (_, _, _, _), D>::from(s, along)) }
+        _ => bad_case(),
+    }
+}
+
+macro_rules! stack_walk_impl {
+    ($name:ident, $d:literal, $d1:literal) => {
+        fn $name(leaves: &[LeafSpec], along: (usize, usize), kind: i64) -> Sx {
+            let Some(ts) = leaves.iter().map(mk_leaf::<$d>).collect::<Option<Vec<Tensor<i64, $d>>>>() else { return bad_case() };
+            let along = (along.0, dim(along.1));
+            let mut it = ts.into_iter();
+            let mut nx = || it.next().unwrap();
+            match (kind, leaves.len()) {
+                (0, 1) => { let s = [nx()]; walk::<_, $d1>(move || TensorStack::<i64, [_; 1], $d>::from(s, along)) }
+                (0, 2) => { let s = [nx(), nx()]; walk::<_, $d1>(move || TensorStack::<i64, [_; 2], $d>::from(s, along)) }
+                (0, 3) => { let s = [nx(), nx(), nx()]; walk::<_, $d1>(move || TensorStack::<i64, [_; 3], $d>::from(s, along)) }
+                (0, 4) => { let s = [nx(), nx(), nx(), nx()]; walk::<_, $d1>(move || TensorStack::<i64, [_; 4], $d>::from(s, along)) }
+                (0, 5) => { let s = [nx(), nx(), nx(), nx(), nx()]; walk::<_, $d1>(move || TensorStack::<i64, [_; 5], $d>::from(s, along)) }
+                (1, 2) => { let s = (nx(), nx()); walk::<_, $d1>(move || TensorStack::<i64, (_, _), $d>::from(s, along)) }
+                (1, 3) => { let s = (nx(), nx(), nx()); walk::<_, $d1>(move || TensorStack::<i64, (_, _, _), $d>::from(s, along)) }
+                (1, 4) => { let s = (nx(), nx(), nx(), nx()); walk::<_, $d1>(move || TensorStack::<i64, (_, _, _, _), $d>::from(s, along)) }
+                _ => bad_case(),
+            }
+        }
+    };
+}
+stack_walk_impl!(stack_walk_0, 0, 1);
+stack_walk_impl!(stack_walk_1, 1, 2);
+stack_walk_impl!(stack_walk_2, 2, 3);
+stack_walk_impl!(stack_walk_3, 3, 4);
+
+fn view_walk(term: &Sx) -> Sx {
+    let Some(v) = term.list() else { return bad_case() };
+    match (v.first().and_then(|x| x.i64()), v.len()) {
+        (Some(10), 4) => {
+            let (Some(leaves), Some(along), Some(kind)) = (parse_leaves(&v[1]), v[2].usize(), v[3].i64()) else { return bad_case() };
+            if leaves.is_empty() {
+                return bad_case();
+            }
+            let d = leaves[0].shape.len();
+            crate::with_d!(d, chain_walk(&leaves, along, kind))
+        }
+        (Some(9), 5) => {
+            let (Some(leaves), Some(pos), Some(name), Some(kind)) = (parse_leaves(&v[1]), v[2].usize(), v[3].usize(), v[4].i64()) else { return bad_case() };
+            if leaves.is_empty() {
+                return bad_case();
+            }
+            match leaves[0].shape.len() {
+                0 => stack_walk_0(&leaves, (pos, name), kind),
+                1 => stack_walk_1(&leaves, (pos, name), kind),
+                2 => stack_walk_2(&leaves, (pos, name), kind),
+                3 => stack_walk_3(&leaves, (pos, name), kind),
+                _ => bad_case(),
+            }
+        }
+        _ => bad_case(),
+    }
+}
+
+// ------------------------------------------------------------------ tensor mutation histories
+
+enum VStep {
+    Rev(Vec<usize>),
+    Range(Vec<(usize, usize)>),
+    Access(Vec<usize>),
+    Transpose(Vec<usize>),
+    Mask(Vec<(usize, usize)>),
+    Rename(Vec<usize>),
+}
+
+enum TOp {
+    Reshape(Vec<(usize, usize)>),
+    Rename(Vec<usize>),
+    TransposeMut(Vec<usize>),
+    ReorderMut(Vec<usize>),
+    MapMut(usize),
+    MapMutWithIndex(usize),
+    Set(Vec<usize>, i64),
+    WriteVia(Vec<VStep>, Vec<usize>, i64),
+}
+
+fn parse_vstep(s: &Sx) -> Option<VStep> {
+    let v = s.list()?;
+    if v.len() != 2 {
+        return None;
+    }
+    Some(match v[0].i64()? {
+        1 => VStep::Rev(v[1].usizes()?),
+        2 => VStep::Range(v[1].pairs_usize()?),
+        3 => VStep::Access(v[1].usizes()?),
+        4 => VStep::Transpose(v[1].usizes()?),
+        5 => VStep::Mask(v[1].pairs_usize()?),
+        6 => VStep::Rename(v[1].usizes()?),
+        _ => return None,
+    })
+}
+
+fn parse_top(s: &Sx) -> Option<TOp> {
+    let v = s.list()?;
+    Some(match (v.first()?.i64()?, v.len()) {
+        (0, 2) => TOp::Reshape(v[1].pairs_usize()?),
+        (1, 2) => TOp::Rename(v[1].usizes()?),
+        (2, 2) => TOp::TransposeMut(v[1].usizes()?),
+        (3, 2) => TOp::ReorderMut(v[1].usizes()?),
+        (4, 2) => TOp::MapMut(v[1].usize()?),
+        (5, 2) => TOp::MapMutWithIndex(v[1].usize()?),
+        (6, 3) => TOp::Set(v[1].usizes()?, v[2].i64()?),
+        (7, 4) => {
+            let steps = v[1].list()?.iter().map(parse_vstep).collect::<Option<Vec<_>>>()?;
+            TOp::WriteVia(steps, v[2].usizes()?, v[3].i64()?)
+        }
+        _ => return None,
+    })
+}
+
+type TDyn<const D: usize> = Box<dyn TensorMut<i64, D>>;
+
+/// The adaptor stack over the (leaked, hence 'static) tensor; Err(1) a constructor returned Err,
+/// Err(2) a constructor panicked (or an array argument of the wrong length: not expressible).
+fn build_over<const D: usize>(base: &'static mut Tensor<i64, D>, steps: &[VStep]) -> Result<TDyn<D>, i64> {
+    let mut s: TDyn<D> = Box::new(base);
+    for st in steps {
+        s = match st {
+            VStep::Rev(names) => {
+                let names: Vec<&'static str> = names.iter().map(|n| dim(*n)).collect();
+                match guarded(move || TensorReverse::from(s, &names)) {
+                    Some(v) => Box::new(v),
+                    None => return Err(2),
+                }
+            }
+            VStep::Range(r) => {
+                if r.len() != D {
+                    return Err(2);
+                }
+                let ranges: [Option<(usize, usize)>; D] = std::array::from_fn(|d| Some(r[d]));
+                match guarded(move || TensorRange::from_all(s, ranges)) {
+                    Some(Ok(v)) => Box::new(v),
+                    Some(Err(_)) => return Err(1),
+                    None => return Err(2),
+                }
+            }
+            VStep::Mask(r) => {
+                if r.len() != D {
+                    return Err(2);
+                }
+                let masks: [Option<(usize, usize)>; D] = std::array::from_fn(|d| Some(r[d]));
+                match guarded(move || TensorMask::from_all(s, masks)) {
+                    Some(Ok(v)) => Box::new(v),
+                    Some(Err(_)) => return Err(1),
+                    None => return Err(2),
+                }
+            }
+            VStep::Access(names) => {
+                if names.len() != D {
+                    return Err(2);
+                }
+                let names: [&'static str; D] = names_arr(names);
+                match guarded(move || TensorAccess::from(s, names)) {
+                    Some(v) => Box::new(v),
+                    None => return Err(2),
+                }
+            }
+            VStep::Transpose(names) => {
+                if names.len() != D {
+                    return Err(2);
+                }
+                let names: [&'static str; D] = names_arr(names);
+                match guarded(move || TensorTranspose::from(s, names)) {
+                    Some(v) => Box::new(v),
+                    None => return Err(2),
+                }
+            }
+            VStep::Rename(names) => {
+                if names.len() != D {
+                    return Err(2);
+                }
+                let names: [&'static str; D] = names_arr(names);
+                match guarded(move || TensorRename::from(s, names)) {
+                    Some(v) => Box::new(v),
+                    None => return Err(2),
+                }
+            }
+        };
+    }
+    Ok(s)
+}
+
+fn all_indexes(lens: &[usize]) -> Vec<Vec<usize>> {
+    let mut out = vec![vec![]];
+    for &len in lens {
+        let mut next = vec![];
+        for p in &out {
+            for i in 0..len {
+                let mut q = p.clone();
+                q.push(i);
+                next.push(q);
+            }
+        }
+        out = next;
+    }
+    out
+}
+
+/// shape and elements of the tensor: every element through the checked getter, then through the
+/// copying and the by-reference iterators (unchecked accesses, hooks on); all must agree.
+fn dump_tensor_state<const D: usize>(t: &Tensor<i64, D>) -> Result<(Sx, Sx), i64> {
+    let shape = t.shape();
+    let lens: Vec<usize> = shape.iter().map(|d| d.1).collect();
+    if lens.iter().try_fold(1usize, |a, &b| a.checked_mul(b)).map_or(true, |n| n > (1 << 20)) {
+        return Err(1024);
+    }
+    let checked = guarded(|| {
+        all_indexes(&lens).iter().map(|i| t.get_reference(idx_arr::<D>(i)).copied()).collect::<Vec<Option<i64>>>()
+    })
+    .ok_or(1020i64)?;
+    let checked: Vec<i64> = checked.into_iter().collect::<Option<Vec<i64>>>().ok_or(1021i64)?;
+    let copied = guarded(|| t.iter().collect::<Vec<i64>>()).ok_or(1022i64)?;
+    let refs = guarded(|| t.iter_reference().copied().collect::<Vec<i64>>()).ok_or(1022i64)?;
+    let indexed = guarded(|| t.iter().with_index().map(|(i, _)| i.to_vec()).collect::<Vec<Vec<usize>>>()).ok_or(1022i64)?;
+    if copied != checked || refs != checked || indexed != all_indexes(&lens) {
+        return Err(1023);
+    }
+    Ok((shape_sx(&shape), l(checked.into_iter().map(z).collect())))
+}
+
+fn history<const D: usize>(shape: &[(usize, usize)], data: &[i64], ops: &[TOp]) -> Sx {
+    let shape: [(&'static str, usize); D] = shape_arr(shape);
+    let data = data.to_vec();
+    let Some(tensor) = guarded(move || Tensor::from(shape, data)) else { return panicked() };
+    let p: *mut Tensor<i64, D> = Box::into_raw(Box::new(tensor));
+    let mut steps = vec![];
+    let mut failure: Option<i64> = None;
+    for op in ops {
+        // exactly one live reference at a time: `t` for direct calls, `base` for adaptor stacks
+        let code: i64 = {
+            let t: &mut Tensor<i64, D> = unsafe { &mut *p };
+            match op {
+                TOp::Reshape(sh) if sh.len() != D => 4,
+                TOp::Reshape(sh) => {
+                    let sh: [(&'static str, usize); D] = shape_arr(sh);
+                    if guarded(|| t.reshape_mut(sh)).is_some() { 0 } else { 2 }
+                }
+                TOp::Rename(n) | TOp::TransposeMut(n) | TOp::ReorderMut(n) if n.len() != D => 4,
+                TOp::Rename(n) => {
+                    let n: [&'static str; D] = names_arr(n);
+                    if guarded(|| t.rename(n)).is_some() { 0 } else { 2 }
+                }
+                TOp::TransposeMut(n) => {
+                    let n: [&'static str; D] = names_arr(n);
+                    if guarded(|| t.transpose_mut(n)).is_some() { 0 } else { 2 }
+                }
+                TOp::ReorderMut(n) => {
+                    let n: [&'static str; D] = names_arr(n);
+                    if guarded(|| t.reorder_mut(n)).is_some() { 0 } else { 2 }
+                }
+                TOp::MapMut(k) | TOp::MapMutWithIndex(k) => {
+                    let calls = Cell::new(0usize);
+                    let tick = || {
+                        if calls.get() == *k {
+                            panic!("injected closure panic");
+                        }
+                        calls.set(calls.get() + 1);
+                    };
+                    let r = if matches!(op, TOp::MapMut(_)) {
+                        guarded(|| t.map_mut(|x| { tick(); x + 1000 }))
+                    } else {
+                        guarded(|| t.map_mut_with_index(|i, x| { tick(); x + 1000 + 7 * i.iter().sum::<usize>() as i64 }))
+                    };
+                    if r.is_some() { 0 } else { 2 }
+                }
+                TOp::Set(idx, _) | TOp::WriteVia(_, idx, _) if idx.len() != D => 4,
+                TOp::Set(idx, v) => {
+                    let idx: [usize; D] = idx_arr(idx);
+                    match guarded(|| match t.get_reference_mut(idx) { Some(r) => { *r = *v; 0 } None => 3 }) {
+                        Some(c) => c,
+                        None => { failure = Some(1025); 0 }
+                    }
+                }
+                TOp::WriteVia(vs, idx, v) => {
+                    let idx: [usize; D] = idx_arr(idx);
+                    let base: &'static mut Tensor<i64, D> = unsafe { &mut *p };
+                    match build_over::<D>(base, vs) {
+                        Err(c) => c,
+                        Ok(mut s) => {
+                            let r = guarded(|| match s.get_reference_mut(idx) {
+                                Some(r) => { *r = *v; true }
+                                None => false,
+                            });
+                            match r {
+                                None => { failure = Some(1026); 0 }
+                                Some(false) => 3,
+                                Some(true) => {
+                                    // the index is valid: the unchecked getters must see the new value
+                                    let back = guarded(|| unsafe { (*s.get_reference_unchecked(idx), *s.get_reference_unchecked_mut(idx)) });
+                                    if back != Some((*v, *v)) || s.get_reference(idx) != Some(v) {
+                                        failure = Some(1027);
+                                    }
+                                    0
+                                }
+                            }
+                        }
+                    }
+                }
+            }
+        };
+        if failure.is_some() {
+            break;
+        }
+        match dump_tensor_state(unsafe { &*p }) {
+            Ok((sh, data)) => steps.push(l(vec![z(code), sh, data])),
+            Err(c) => { failure = Some(c); break; }
+        }
+    }
+    drop(unsafe { Box::from_raw(p) });
+    match failure {
+        Some(c) => inconsistent(c),
+        None => ok(l(steps)),
+    }
+}
 
 fn dump_matrix(m: &Matrix<i64>, panicked_flag: bool) -> Sx {
     let (rows, cols) = m.size();
@@ -56,6 +472,13 @@ impl Iterator for PanickingIter {
 pub fn run(args: &[Sx]) -> Sx {
     let Some(op) = args.first().and_then(|x| x.i64()) else { return bad_case() };
     match (op, args.len()) {
+        (8, _) => matrix_histories::run(&args[1..]),
+        (9, 2) => view_walk(&args[1]),
+        (7, 4) => {
+            let (Some(shape), Some(data), Some(ops)) = (args[1].pairs_usize(), args[2].i64s(), args[3].list()) else { return bad_case() };
+            let Some(ops) = ops.iter().map(parse_top).collect::<Option<Vec<_>>>() else { return bad_case() };
+            crate::with_d!(shape.len(), history(&shape, &data, &ops))
+        }
         (1, 4) | (2, 4) => {
             let (Some(rows), Some(cols), Some(k)) = (args[1].usize(), args[2].usize(), args[3].usize()) else { return bad_case() };
             if rows == 0 || cols == 0 || rows * cols > 4096 {
